@@ -16,7 +16,7 @@ def contains(v, needle):
 
 
 def run(ctx, chk):
-    fb = ctx.facts('dev')
+    fb = ctx.facts()
     chk.explanation = ('Effect order on all paths (PSI) plus CFG dominance / loop membership: monotonic read before '
                        'the chrony query inside the poll loop and shipped as as-of; REALTIME read before monotonic '
                        'read in now(), each feeding its role in the bound computation.')
